@@ -36,10 +36,15 @@ def main():
         we = Input(1, 'we')
         m = MemBlock(8, 3, 'mem', asynchronous=True, max_read_ports=None, max_write_ports=None)
         ins = []
-        for k in range(3):
-            a, dta = Input(3, 'a%d' % k), Input(8, 'd%d' % k)
+        # four write ports sharing one enable: two of them also share the data wire (they differ only in the
+        # address), two have their own data
+        shared = Input(8, 'dshared')
+        ins.append(shared)
+        for k in range(4):
+            a = Input(3, 'a%d' % k)
+            dta = shared if k < 2 else Input(8, 'd%d' % k)
             m[a] <<= MemBlock.EnabledWrite(dta, we)
-            ins += [a, dta]
+            ins += [a] + ([] if k < 2 else [dta])
         ra = Input(3, 'ra')
         o = Output(8, 'o')
         o <<= m[ra]
